@@ -1,0 +1,68 @@
+//go:build verif
+
+package azblobproxy
+
+import (
+	"fmt"
+
+	"github.com/buchgr/bazel-remote/v2/cache"
+	"github.com/buchgr/bazel-remote/v2/utils/backendproxy"
+
+	"github.com/Azure/azure-sdk-for-go/sdk/azcore"
+	"github.com/Azure/azure-sdk-for-go/sdk/azcore/policy"
+	"github.com/Azure/azure-sdk-for-go/sdk/storage/azblob"
+)
+
+// VerifNew is New with an injectable HTTP transport (and no credentials, no
+// retries), so that a verification harness can observe and answer the
+// requests the azblob proxy makes. Verification builds only.
+func VerifNew(
+	transport policy.Transporter,
+	storageAccount string,
+	containerName string,
+	prefix string,
+	updateTimestamps bool,
+	storageMode string, accessLogger cache.Logger,
+	errorLogger cache.Logger, numUploaders, maxQueuedUploads int,
+) (cache.Proxy, error) {
+	url := fmt.Sprintf("https://%s.blob.core.windows.net/", storageAccount)
+
+	client, err := azblob.NewClientWithNoCredential(url, &azblob.ClientOptions{
+		ClientOptions: azcore.ClientOptions{
+			Transport: transport,
+			Retry:     policy.RetryOptions{MaxRetries: -1},
+		},
+	})
+	if err != nil {
+		return nil, err
+	}
+
+	if storageMode != "zstd" && storageMode != "uncompressed" {
+		return nil, fmt.Errorf("unsupported storage mode %q", storageMode)
+	}
+
+	c := &azBlobCache{
+		containerClient:  client.ServiceClient().NewContainerClient(containerName),
+		prefix:           prefix,
+		storageAccount:   storageAccount,
+		container:        containerName,
+		accessLogger:     accessLogger,
+		errorLogger:      errorLogger,
+		v2mode:           storageMode == "zstd",
+		updateTimestamps: updateTimestamps,
+	}
+
+	if c.v2mode {
+		c.objectKey = func(hash string, kind cache.EntryKind) string {
+			return objectKeyV2(c.prefix, hash, kind)
+		}
+	} else {
+		c.objectKey = func(hash string, kind cache.EntryKind) string {
+			return objectKeyV1(c.prefix, hash, kind)
+		}
+	}
+
+	c.uploadQueue = backendproxy.StartUploaders(c, numUploaders, maxQueuedUploads)
+
+	return c, nil
+}
